@@ -15,17 +15,17 @@ contract(f"{M}:unpack_header_extensions",
          params={"extension_profile": "int", "extension_value": "bytes"},
          returns="list[tuple[int,bytes]]",
          raises={"ValueError": None},
-         ensures=["forall(lambda j: 1 <= result[j][0] <= 255 and len(result[j][1]) <= 255, 0, len(result))",
+         ensures=["forall(lambda j: 0 <= result[j][0] <= 255 and len(result[j][1]) <= 255, 0, len(result))",
                   "implies(extension_profile == 0xBEDE, forall(lambda j: result[j][0] <= 15 and 1 <= len(result[j][1]) <= 16, 0, len(result)))",
                   "len(result) <= len(extension_value)"],
          locals={"extensions": "list[tuple[int,bytes]]"},
          loops={0: dict(kind="while",
                         invariant=["0 <= pos", "len(extensions) <= pos", "pos <= len(extension_value)",
-                                   "forall(lambda j: 1 <= extensions[j][0] <= 15 and 1 <= len(extensions[j][1]) <= 16, 0, len(extensions))"],
+                                   "forall(lambda j: 0 <= extensions[j][0] <= 15 and 1 <= len(extensions[j][1]) <= 16, 0, len(extensions))"],
                         decreases="len(extension_value) - pos"),
                 1: dict(kind="while",
                         invariant=["0 <= pos", "len(extensions) <= pos", "pos <= len(extension_value)",
-                                   "forall(lambda j: 1 <= extensions[j][0] <= 255 and len(extensions[j][1]) <= 255, 0, len(extensions))"],
+                                   "forall(lambda j: 0 <= extensions[j][0] <= 255 and len(extensions[j][1]) <= 255, 0, len(extensions))"],
                         decreases="len(extension_value) - pos")},
          tags=["C05", "C07"],
          witness=[{"extension_profile": 0xBEDE, "extension_value": bytes.fromhex("900102030000")}])
